@@ -83,6 +83,7 @@ struct CaseResult {
     kind: String,
     sample: Option<Value>,
     applicable: bool,
+    digest: String,
 }
 
 fn check_case(sb: &Sandbox, opts: &Opts, idx: usize, orders: usize, forced: Option<(Files, Files, String, Illegal)>) -> CaseResult {
@@ -91,7 +92,7 @@ fn check_case(sb: &Sandbox, opts: &Opts, idx: usize, orders: usize, forced: Opti
     cfg.max_pkgs = cfg.max_pkgs.max(2);
     let proj = generate(&mut p, &cfg);
     let kind = ILLEGAL_KINDS[idx % ILLEGAL_KINDS.len()].clone();
-    let mut r = CaseResult { violations: Vec::new(), procs: 0, fingerprints: Vec::new(), kind: format!("{kind:?}"), sample: None, applicable: false };
+    let mut r = CaseResult { violations: Vec::new(), procs: 0, fingerprints: Vec::new(), kind: format!("{kind:?}"), sample: None, applicable: false, digest: String::new() };
     let (twin, bad, desc, kind) = match forced {
         Some(f) => f,
         None => match inject(&proj, &kind, &mut p) {
@@ -118,6 +119,7 @@ fn check_case(sb: &Sandbox, opts: &Opts, idx: usize, orders: usize, forced: Opti
         let (vt, n1) = verdict(sb, &twin, c);
         let (vb, n2) = verdict(sb, &bad, c);
         r.procs += n1 + n2;
+        r.digest = sha(format!("{}{:?}{:?}", r.digest, vt, vb).as_bytes());
         r.fingerprints.push(format!("{}:{}", &sha(serde_json::to_string(&files_json(&bad)).unwrap().as_bytes())[..12], k));
         // reference model: twin legal => accepted; bad => rejected, by both pipelines
         for (pipe, got) in [("whole", &vt.whole), ("separate", &vt.separate)] {
@@ -188,6 +190,7 @@ pub fn run(opts: &Opts) -> i32 {
         |w| Sandbox::new(&format!("c16w{w}")).expect("sandbox"),
         |sb, i| check_case(sb, opts, i, orders, None),
     );
+    harness::print_run_digest(&results.iter().map(|r| r.digest.clone()).collect::<Vec<_>>());
     let mut violations = Vec::new();
     let mut per_kind: BTreeMap<String, u64> = BTreeMap::new();
     let mut applicable = 0u64;
